@@ -961,6 +961,43 @@ Proof.
   intro p. apply Forall_map. apply Forall_forall. intros x _. vm_compute. reflexivity.
 Qed.
 
+(* the cache key must be the WHOLE recorded pc slice: keyed on a bounded prefix
+   (here 32 pcs) two different stacks of equal length share a counter *)
+Lemma bounded_key_refuted (symb : list N -> list frame) (name : bytes) :
+  let p := repeat 7 32 ++ [1] in
+  let q := repeat 7 32 ++ [2] in
+  p <> q /\ length p = length q /\
+  let hits := snd (run symb name [] (map (firstn 32) [p; q])) in
+  nth_error hits 0 = nth_error hits 1.
+Proof.
+  cbv zeta. split; [discriminate|]. split; [reflexivity|].
+  apply (depth_identity symb name 32 [repeat 7 32 ++ [1]; repeat 7 32 ++ [2]] 0 1 _ _ eq_refl eq_refl).
+  reflexivity.
+Qed.
+
+(* no length limit applies to the EXPANDED name: an encoded name well within the
+   4096-byte limit can expand to more than 4096 bytes (100 frames of one package) *)
+Definition long_pkg_frame : frame :=
+  mkFrame (repeat 112 60 ++ [46; 102]) true 1 26.        (* 60 x p, then .f *)
+
+Lemma expanded_name_exceeds_limit :
+  let fs := repeat long_pkg_frame 100 in
+  Forall rt_frame fs /\ pfx_ok [115; 116] /\
+  is_truncated [115; 116] fs = false /\
+  (N.of_nat (length (encode_frames [115; 116] fs)) <= 4096) /\
+  decode_stack (encode_frames [115; 116] fs) = render_plain [115; 116] fs /\
+  4096 < N.of_nat (length (decode_stack (encode_frames [115; 116] fs))).
+Proof.
+  cbv zeta.
+  assert (Hrt : Forall rt_frame (repeat long_pkg_frame 100)).
+  { apply Forall_forall. intros f Hf. apply repeat_spec in Hf. subst f. vm_compute. reflexivity. }
+  assert (Hp : pfx_ok [115; 116]) by (vm_compute; reflexivity).
+  assert (Ht : is_truncated [115; 116] (repeat long_pkg_frame 100) = false) by (vm_compute; reflexivity).
+  split; [exact Hrt|]. split; [exact Hp|]. split; [exact Ht|].
+  split; [exact (length_bound _ _)|]. split; [apply decode_encode; assumption|].
+  rewrite (decode_encode _ _ Hp Hrt Ht). vm_compute. reflexivity.
+Qed.
+
 (* ------------------------------------------------------------ statements with the literal bound *)
 
 Lemma length_bound_lit prefix fs : N.of_nat (length (encode_frames prefix fs)) <= 4096.
